@@ -6,20 +6,10 @@ add_namespace / encode_data.
 import XsdataModel.Proofs.DictLemmas
 import XsdataModel.Proofs.Lexical
 import XsdataModel.Xml.TblNsEnv
+import XsdataModel.Spec.Hyps
 
 namespace Proofs.MapInv
-open Py Xs.Ns Xs.Sax Spec.XmlNs
-
-/-- a namespace name that may be bound to a prefix -/
-def uriOK (u : Str) : Bool := !u.isEmpty && uriSafe u && u != xmlnsNsUri
-
-/-- decidable facts about the constant tables the proofs rely on -/
-def enumEntryOK (e : Str × Str) : Bool :=
-  isNCName e.2 && e.2 != xmlnsPrefix && !(nsLit.isPrefixOf e.2) && uriOK e.1 && ((e.2 == xmlPrefix) == (e.1 == xmlNsUri))
-
-def envOK (env : NsEnv) : Bool :=
-  env.saxXmlNs == xmlNsUri && dget env.enum xmlNsUri == some xmlPrefix && env.enum.all enumEntryOK
-  && env.enum.all (fun e1 => env.enum.all (fun e2 => e1.2 != e2.2 || e1.1 == e2.1))
+open Py Xs.Ns Xs.Sax Spec.XmlNs Spec.Hyps
 
 structure EnvOK (env : NsEnv) : Prop where
   xmlNs : env.saxXmlNs = xmlNsUri
@@ -191,7 +181,7 @@ theorem generatePrefix_ok (env : NsEnv) (henv : EnvOK env) (d : Option Str) (u :
 end Proofs.MapInv
 
 namespace Proofs.MapInv
-open Py Xs.Ns Xs.Sax Spec.XmlNs
+open Py Xs.Ns Xs.Sax Spec.XmlNs Spec.Hyps
 
 theorem findPrefix_some (u : Str) (M : NsMap) (p : Pfx) (h : findPrefix u M = some p) : (p, u) ∈ M := by
   induction M with
@@ -236,7 +226,7 @@ theorem loadPrefix_ok (env : NsEnv) (henv : EnvOK env) (d : Option Str) (u : Str
 end Proofs.MapInv
 
 namespace Proofs.MapInv
-open Py Xs.Ns Xs.Sax Spec.XmlNs
+open Py Xs.Ns Xs.Sax Spec.XmlNs Spec.Hyps
 
 /-! ### Clark notation vs `split_qname` -/
 
@@ -351,28 +341,9 @@ theorem clark_none_ns (q l : Str) (h : clark q = some (none, l)) : isNCName l = 
 end Proofs.MapInv
 
 namespace Proofs.MapInv
-open Py Xs.Ns Xs.Sax Spec.XmlNs
+open Py Xs.Ns Xs.Sax Spec.XmlNs Spec.Hyps
 
 /-! ### values -/
-
-/-- QName text: Clark notation with a declarable namespace, or a bare NCName -/
-def qnameTextOK (t : Str) : Bool :=
-  match clark t with
-  | some (some u, _) => uriOK u
-  | some (none, _) => true
-  | none => false
-
-/-- atoms the event generator produces (str, QName) with XML characters only -/
-def atomOK : Atom → Bool
-  | .str s => xmlChars s
-  | .qname t => qnameTextOK t
-  | .int _ => false
-  | .bool _ => false
-
-def valOK : Val → Bool
-  | .none => true
-  | .atom a => atomOK a
-  | .list xs => xs.all atomOK
 
 theorem xmlChars_append (a b : Str) : xmlChars (a ++ b) = (xmlChars a && xmlChars b) := by
   simp [xmlChars, List.all_append]
@@ -476,7 +447,7 @@ theorem encodeData_ok (env : NsEnv) (henv : EnvOK env) (d : Option Str) (v : Val
 end Proofs.MapInv
 
 namespace Proofs.MapInv
-open Py Xs.Ns Xs.Sax Xs.Writer Spec.XmlNs
+open Py Xs.Ns Xs.Sax Xs.Writer Spec.XmlNs Spec.Hyps
 
 /-! ### add_namespace, attributes -/
 
@@ -491,11 +462,6 @@ theorem prefixExists_ext (u : Str) (M M' : NsMap) (h : Ext M M') (hp : prefixExi
   simp only [prefixExists, List.any_eq_true, decide_eq_true_eq] at hp ⊢
   obtain ⟨e, he, heq⟩ := hp
   exact ⟨e, List.mem_append_left _ he, heq⟩
-
-/-- namespace part of a name is absent or declarable -/
-def nsPartOK : Option Str → Bool
-  | none => true
-  | some u => uriOK u
 
 theorem addNamespace_ok (env : NsEnv) (henv : EnvOK env) (d : Option Str) (uo : Option Str) (M : NsMap)
     (hM : MapOK env d M) (hu : nsPartOK uo = true) :
